@@ -68,7 +68,8 @@ def replay_file(path):
     import json
     d = json.load(open(path))["detail"]
     cache = common.scratch("vf-c05-oracle-")
-    r = replay_task((0, d["hist"], d.get("origin", "replay"), d.get("mode") == "release", d.get("jobs", 1), cache))
+    r = replay_task((0, d["hist"], d.get("origin", "replay"), d.get("mode") == "release", d.get("jobs", 1), cache,
+                     d.get("kill_at_event")))
     for sig, detail in r["violations"]:
         print("VIOLATION property=%s replay=%s" % (PROP, path))
         print("  signature: %s" % sig)
@@ -121,7 +122,8 @@ def main():
     behaviours += [(h, "simulate") for h in sel]
     rep.extra["simulated"] = {"generated": len(g.printed), "replayed": len(sel)}
     cache = common.scratch("vf-c05-oracle-")
-    r = replay_task((0, d["hist"], d.get("origin", "replay"), d.get("mode") == "release", d.get("jobs", 1), cache))
+    r = replay_task((0, d["hist"], d.get("origin", "replay"), d.get("mode") == "release", d.get("jobs", 1), cache,
+                     d.get("kill_at_event")))
     for sig, detail in r["violations"]:
         print("VIOLATION property=%s replay=%s" % (PROP, path))
         print("  signature: %s" % sig)
